@@ -154,6 +154,11 @@ func (discardHook) Run(e *zerolog.Event, l zerolog.Level, m string) {
 	}
 }
 
+// levelW makes a destination a zerolog.LevelWriter.
+type levelW struct{ io.Writer }
+
+func (l levelW) WriteLevel(_ zerolog.Level, p []byte) (int, error) { return l.Writer.Write(p) }
+
 // tagHook marks the events of one derived child.
 type tagHook struct{ t int }
 
@@ -169,6 +174,8 @@ func buildLoggers(p params, w io.Writer) (lgs []zerolog.Logger, derive func(i in
 	switch p.writer {
 	case "sync":
 		dst = zerolog.SyncWriter(w)
+	case "synclevel": // the wrapped destination is a LevelWriter: events reach it through WriteLevel
+		dst = zerolog.SyncWriter(levelW{w})
 	case "console":
 		dst = zerolog.ConsoleWriter{Out: w, NoColor: true, PartsExclude: []string{"time"}}
 	}
@@ -296,7 +303,7 @@ func (in *inst) Check(res *mcrt.Result) []explore.Violation {
 	for _, m := range in.mutated {
 		add("the slice handed to the writer changed before Write returned: %s", m)
 	}
-	if in.overlap && in.p.writer == "sync" {
+	if in.overlap && strings.HasPrefix(in.p.writer, "sync") {
 		add("a writer wrapped in SyncWriter saw two overlapping calls")
 	}
 	got := append([]string{}, in.calls...)
@@ -362,6 +369,8 @@ func plans(tier string) []drv.Plan {
 	add("derived/plain/nested;tiny;tiny", 3)
 	add("shared/sync/tiny,tiny;big", b3)
 	add("shared/sync/tiny;tiny;tiny", b2)
+	add("shared/synclevel/tiny,tiny;big", b3)
+	add("children/synclevel/tiny,tiny;nested", b2)
 	add("shared/console/tiny,nested;tiny", b2)
 	add("children/console/big;tiny", b3)
 	add("shared/plain/huge;tiny,tiny", 1)
